@@ -219,14 +219,26 @@ func checkC14(e *core.Env) {
 			code = pick(r, uint32(99), 1<<31-1, 1000)
 		}
 		msg := pick(r, "", "m", "a:b", ":", "x y")
+		bodyKind := r.Intn(3)
+		if code == 0 {
+			bodyKind = 0 // a successful reply needs its body
+		}
 		ch := &httpgrpc.Channel{BaseURL: mustURL("http://c14.test/"), Transport: rtFunc(func(rq *http.Request) (*http.Response, error) {
 			h := http.Header{}
 			h.Set("X-GRPC-Status", fmt.Sprintf("%d:%s", code, msg))
-			return &http.Response{StatusCode: st, Header: h, Body: io.NopCloser(strings.NewReader("")), Request: rq, ProtoMajor: 1, ProtoMinor: 1}, nil
+			// an error reply may carry any body (a renderer's text, a proxy's page), complete or broken off
+			var body io.Reader = strings.NewReader("")
+			switch bodyKind {
+			case 1:
+				body = strings.NewReader("<html>an error page</html>")
+			case 2:
+				body = io.MultiReader(strings.NewReader("partial"), errReader{io.ErrUnexpectedEOF})
+			}
+			return &http.Response{StatusCode: st, Header: h, Body: io.NopCloser(body), Request: rq, ProtoMajor: 1, ProtoMinor: 1}, nil
 		})}
 		oi := r.Intn(len(c14OptNames))
 		cerr := ch.Invoke(context.Background(), Unary.Method(), &tpb.Message{}, new(tpb.Message), c14CallOpts()[oi]...)
-		e.Eval(fmt.Sprintf("prec|%d|%d|%s", st/100, code, c14OptNames[oi]), true)
+		e.Eval(fmt.Sprintf("prec|%d|%d|%s|body%d", st/100, code, c14OptNames[oi], bodyKind), true)
 		if code == 0 {
 			if cerr != nil {
 				e.Violate("precedence/ok-header", fmt.Sprintf("HTTP %d with X-GRPC-Status 0: client saw %v", st, cerr), nil)
@@ -234,7 +246,7 @@ func checkC14(e *core.Env) {
 			return
 		}
 		if cerr == nil || status.Code(cerr) != codes.Code(code) || status.Convert(cerr).Message() != msg {
-			e.Violate("precedence/header-code", fmt.Sprintf("HTTP %d with X-GRPC-Status %d:%q: client saw %v", st, code, msg, cerr), nil)
+			e.Violate("precedence/header-code", fmt.Sprintf("HTTP %d with X-GRPC-Status %d:%q (body kind %d: 0 empty, 1 text, 2 broken off): client saw %v", st, code, msg, bodyKind, cerr), nil)
 		}
 	})
 }
@@ -257,3 +269,7 @@ func mustURL(s string) *url.URL {
 	}
 	return u
 }
+
+type errReader struct{ err error }
+
+func (e errReader) Read([]byte) (int, error) { return 0, e.err }
